@@ -618,7 +618,7 @@ Proof.
   { pose proof Hb1 as [I Ein _ _ _ Nw]. pose proof (bcore_avail _ (proj1 I)) as A. unfold avail_ok in A.
     unfold top_ok in T1. rewrite Ein in A. lia. }
   destruct (b_next_container_end tot Htot b1 _ _ c e stk Hb1) as (b' & E1 & Hb' & Ec & Ep);
-    [unfold sav; destruct (_ =? _); auto|exact Hpos|].
+    [reflexivity|exact Hpos|].
   rewrite <- Hn in E1.
   assert (En : r_next ts r = (rs_eof (rs_bits r0 b') true, Ok false)).
   { rewrite En0, (loop_true api fuel k r0 _ (raw_eof ts api fuel r0 b' E1 Ec)). reflexivity. }
